@@ -217,9 +217,38 @@ func Template(w *kit.World, n, fn int) (string, error) {
 	}
 	tmplMu.Lock()
 	defer tmplMu.Unlock()
+	return templateLocked(w, n, fn, key)
+}
+
+// maxTemplates bounds the template directories kept per process (they live
+// in RAM-backed storage); the least recently used one is removed.
+const maxTemplates = 48
+
+var tmplOrder []string
+
+func templateLocked(w *kit.World, n, fn int, key string) (string, error) {
+	touch := func() {
+		for i, k := range tmplOrder {
+			if k == key {
+				tmplOrder = append(tmplOrder[:i], tmplOrder[i+1:]...)
+				break
+			}
+		}
+		tmplOrder = append(tmplOrder, key)
+	}
 	if d, ok := tmpls[key]; ok {
+		touch()
 		return d, nil
 	}
+	for len(tmplOrder) >= maxTemplates {
+		old := tmplOrder[0]
+		tmplOrder = tmplOrder[1:]
+		if d, ok := tmpls[old]; ok {
+			os.RemoveAll(d)
+			delete(tmpls, old)
+		}
+	}
+	defer touch()
 	dir, err := os.MkdirTemp(TmpRoot(), "vtmpl-")
 	if err != nil {
 		return "", err
@@ -276,7 +305,15 @@ func CleanupTemplates() {
 
 // NewDataDir returns a fresh copy of the template.
 func NewDataDir(w *kit.World, n, fn int) (string, error) {
-	t, err := Template(w, n, fn)
+	key := fmt.Sprintf("%s|%d|%d", w.Spec.Key(), n, fn)
+	if n == 0 {
+		key = "fresh"
+	}
+	// The copy is made under the lock so that the template cannot be
+	// evicted underneath it.
+	tmplMu.Lock()
+	defer tmplMu.Unlock()
+	t, err := templateLocked(w, n, fn, key)
 	if err != nil {
 		return "", err
 	}
